@@ -174,8 +174,9 @@ pub trait NetSched {
     /// how many of the `in_flight` messages at the head of a channel (FIFO) are delivered to the
     /// receiver before its tick
     fn deliver(&mut self, in_flight: usize) -> usize;
-    /// for at-least-once channels: duplicate the head message this many extra times
-    fn dup(&mut self) -> usize {
+    /// for channels whose declared guarantee admits reordering: which of the `in_flight`
+    /// messages arrives next (0 = the oldest)
+    fn pick_msg(&mut self, _in_flight: usize) -> usize {
         0
     }
 }
@@ -219,6 +220,16 @@ impl NetSched for SimNet<'_> {
             self.sim.fault("net_delay");
         }
         in_flight - held
+    }
+    fn pick_msg(&mut self, in_flight: usize) -> usize {
+        if in_flight <= 1 {
+            return 0;
+        }
+        let i = self.sim.choose("overtake", 0, in_flight as u64 - 1) as usize;
+        if i > 0 {
+            self.sim.fault("net_reorder");
+        }
+        i
     }
 }
 
